@@ -5,7 +5,7 @@ from ..core import core_oracle
 
 PROP = 'C03'
 LEVEL = 'exploration'
-BUDGET = {'quick': 3200, 'thorough': 64000}
+BUDGET = {'quick': 9600, 'thorough': 128000}
 RULE = ('cases = well-formed chart with entry/exit/action logging probes (30% of fragments also '
         'send/notify) + history of 8-25 ops. Per returned MacroStep: executed-code log == '
         'exit/action/entry lists micro step by micro step, sent events == events sent by exactly '
